@@ -17,6 +17,23 @@ def check(ctx):
     pr = ctx.N(sd.methods['process_resource'], keep=('get_output_row', 'normalize_for_engine', 'normalize_schema_for_engine'))
     from sa.normalize import call_idioms
     call_idioms(ctx, pr)        # f(**{'k': v}) is f(k=v); put = d.setdefault; put(..) is d.setdefault(..)
+    # update mode relies on the writer of the storage library to tell an existing key from a new one.  Its bloom filter remembers the
+    # keys as the database returns them and is asked with the keys as the schema casts them: for a number / any typed key column the
+    # two texts differ (1.5 vs Decimal('1.5'), '1' vs 1) and an existing row is inserted again.  The exact lookup is the default the
+    # property needs; the filter is an optimisation to opt into
+    run.rule('UBF', 'UPDATE-LOOKUP: the default of the dumper option use_bloom_filter is False')
+    ini20 = ctx.N(sd.methods['__init__'])
+    ubf = [c_ for c_ in ast.walk(ini20.node) if isinstance(c_, ast.Call) and isinstance(c_.func, ast.Attribute) and c_.func.attr == 'get'
+           and c_.args and isinstance(c_.args[0], ast.Constant) and c_.args[0].value == 'use_bloom_filter'] + \
+          [p_ for p_ in ast.walk(ini20.node) if isinstance(p_, ast.Tuple) and len(p_.elts) == 2 and isinstance(p_.elts[0], ast.Constant)
+           and p_.elts[0].value == 'use_bloom_filter']
+    if len(ubf) != 1:
+        raise AnalysisError('SQLDumper.__init__: the default of use_bloom_filter was not found')
+    dflt20 = (ubf[0].args[1] if len(ubf[0].args) > 1 else None) if isinstance(ubf[0], ast.Call) else ubf[0].elts[1]
+    run.check(isinstance(dflt20, ast.Constant) and dflt20.value is False, 'UBF', where(repo, ubf[0]), sd.qualname,
+              "options.get('use_bloom_filter', False)",
+              'update mode asks the storage writer\'s bloom filter by default: for a key column of type number / any a key that is '
+              'in the table already is taken for new and inserted a second time')
     run.rule('R23', 'MODE-SIGNATURE(sql): the existing table is deleted only when mode == rewrite and it exists; the table is created only '
                     'when it does not exist (after a possible delete); update keys are passed only in update mode, defaulting to the '
                     'primary key; resources that are not mapped to a table pass through untouched')
